@@ -600,7 +600,7 @@ const msSnapshotKey = "/kafscale/metadata/snapshot"
 // msEtcdKVs reads every key under /kafscale/ (except the shared metadata snapshot) with
 // its value through the etcd client.
 func (e *msEtcd) kvs(t *testing.T) map[string]string {
-	ctx, cancel := context.WithTimeout(context.Background(), 5*time.Second)
+	ctx, cancel := context.WithTimeout(context.Background(), 30*time.Second)
 	defer cancel()
 	resp, err := e.cli.Get(ctx, "/kafscale/", clientv3.WithPrefix())
 	if err != nil {
@@ -622,6 +622,16 @@ type msRun struct {
 }
 
 func msRunBoth(t *testing.T, e *msEtcd, brokers int, ops []msOp) msRun {
+	return msRunBothOpt(t, e, brokers, ops, true)
+}
+
+// scan=false: the etcd key space is not read after every op (scale cases: hundreds of keys)
+func msRunBothOpt(t *testing.T, e *msEtcd, brokers int, ops []msOp, scan bool) msRun {
+	return msRunBothAt(t, e, brokers, ops, func(int) bool { return scan })
+}
+
+// scanAt(i): read the etcd key space after op i (a nil entry in kvs means "not read")
+func msRunBothAt(t *testing.T, e *msEtcd, brokers int, ops []msOp, scanAt func(int) bool) msRun {
 	ctx := context.Background()
 	ims := NewInMemoryStore(msInitial(brokers))
 	ets := e.fresh(t, brokers)
@@ -629,7 +639,11 @@ func msRunBoth(t *testing.T, e *msEtcd, brokers int, ops []msOp) msRun {
 	for _, op := range ops {
 		r.im = append(r.im, msApply(ctx, ims, op))
 		r.et = append(r.et, msApply(ctx, ets, op))
-		r.kvs = append(r.kvs, e.kvs(t))
+		if scanAt(len(r.et) - 1) {
+			r.kvs = append(r.kvs, e.kvs(t))
+		} else {
+			r.kvs = append(r.kvs, nil)
+		}
 	}
 	return r
 }
@@ -821,21 +835,31 @@ func msScenarioOracle(sc msScenario, run msRun) (string, string) {
 			}
 		}
 	}
+	// ownership is learned from the observed key space: keys that appear or change between
+	// two reads belong to the topic named by the operations in between (when they all name
+	// the same one)
 	owner := map[string]string{}
 	prev := map[string]string{}
+	topic, has, mixed := "", false, false
 	for i, op := range ops {
 		ts, _ := msOpNames(op)
-		topic, has := "", false
 		if len(ts) == 1 && op.K != "md" {
+			if has && ts[0] != topic {
+				mixed = true
+			}
 			topic, has = ts[0], true
 		}
 		cur := run.kvs[i]
+		if cur == nil {
+			continue // not read after this op: the interval goes on
+		}
+		single := has && !mixed
 		for k, v := range prev {
 			nv, still := cur[k]
 			if still && nv == v {
 				continue
 			}
-			if o, owned := owner[k]; has && owned && o != topic {
+			if o, owned := owner[k]; single && owned && o != topic {
 				what := "removed"
 				if still {
 					what = "rewrote"
@@ -844,8 +868,12 @@ func msScenarioOracle(sc msScenario, run msRun) (string, string) {
 			}
 		}
 		for k, v := range cur {
-			if pv, was := prev[k]; (!was || pv != v) && has {
-				owner[k] = topic
+			if pv, was := prev[k]; !was || pv != v {
+				if single {
+					owner[k] = topic
+				} else {
+					delete(owner, k)
+				}
 			}
 		}
 		for k := range owner {
@@ -853,7 +881,17 @@ func msScenarioOracle(sc msScenario, run msRun) (string, string) {
 				delete(owner, k)
 			}
 		}
+		// a deleted topic leaves nothing behind: a later topic of the same name must not
+		// inherit keys of the old one
+		if op.K == "dt" && run.et[i].Err != 3 {
+			for k, o := range owner {
+				if _, still := cur[k]; still && o == op.Topic {
+					return "deleted-topic-keys-remain", fmt.Sprintf("real etcd: after %s (answer error class %d) key %s written for that topic is still there (%d keys in etcd)", msCoqOp(op), run.et[i].Err, k, len(cur))
+				}
+			}
+		}
 		prev = cur
+		topic, has, mixed = "", false, false
 	}
 	return "", ""
 }
@@ -909,4 +947,108 @@ func msGenOverwrite(r *vRand) (int, []msOp) {
 		reads()
 	}
 	return 1, ops
+}
+
+// ---------- scale families ----------
+// Operations over many keys: a topic with 150-300 committed offsets spread over groups x
+// partitions, 150+ partitions, 150+ groups, names near their length limits - then listings,
+// DeleteTopic / DeleteConsumerGroup, reads of what should be gone and of what should stay,
+// re-creation. (etcd rejects a transaction with more than 128 operations and a request
+// above 1.5 MiB; code that batches per-key work meets those limits only at this scale.)
+func msGenScale(r *vRand) (int, []msOp) {
+	var ops []msOp
+	t, other := "orders", "orders-v2"
+	tail := func(groups []string, parts int) {
+		g0 := groups[0]
+		ops = append(ops, msOp{K: "lg"}, msOp{K: "md"},
+			msOp{K: "dt", Topic: t}, msOp{K: "ls"}, msOp{K: "fo", Group: g0, Topic: t, Part: 0}, msOp{K: "lo", Group: groups[len(groups)-1], Topic: t, Part: int32(parts - 1)},
+			msOp{K: "fo", Group: g0, Topic: other, Part: 0}, msOp{K: "no", Topic: other, Part: 0}, msOp{K: "md"}, msOp{K: "fc", Topic: t},
+			msOp{K: "ct", Topic: t, N: 2, RF: 1}, msOp{K: "fo", Group: g0, Topic: t, Part: 0}, msOp{K: "no", Topic: t, Part: 1},
+			msOp{K: "dg", Group: g0}, msOp{K: "lg"}, msOp{K: "fg", Group: g0}, msOp{K: "dt", Topic: other}, msOp{K: "ls"}, msOp{K: "md"})
+	}
+	switch r.Intn(4) {
+	case 0: // many groups x few partitions: 150-300 committed offsets on one topic
+		parts := r.Range(3, 8)
+		ng := (r.Range(150, 300) + parts - 1) / parts
+		var groups []string
+		for i := 0; i < ng; i++ {
+			groups = append(groups, fmt.Sprintf("grp-%03d", i))
+		}
+		ops = append(ops, msOp{K: "ct", Topic: t, N: int64(parts), RF: 1}, msOp{K: "ct", Topic: other, N: 1, RF: 1},
+			msOp{K: "co", Group: groups[0], Topic: other, N: 77, Meta: "keep"}, msOp{K: "uo", Topic: other, N: 6})
+		for _, g := range groups {
+			for p := 0; p < parts; p++ {
+				ops = append(ops, msOp{K: "co", Group: g, Topic: t, Part: int32(p), N: int64(p + 1), Meta: "m"})
+			}
+		}
+		ops = append(ops, msOp{K: "pg", G: &msGroup{ID: groups[0], State: "stable", Members: []msMember{}}})
+		tail(groups, parts)
+	case 1: // 150+ partitions, one group committing on all of them
+		parts := r.Range(150, 220)
+		first := r.Range(1, 100)
+		ops = append(ops, msOp{K: "ct", Topic: t, N: int64(first), RF: 1}, msOp{K: "cp", Topic: t, N: int64(parts)}, msOp{K: "ct", Topic: other, N: 1, RF: 1},
+			msOp{K: "co", Group: "g1", Topic: other, N: 77, Meta: "keep"}, msOp{K: "uo", Topic: other, N: 6},
+			msOp{K: "uc", C: &msCfg{Name: t, RF: 1, RetMs: 5, RetBytes: -1, Config: [][2]string{}}})
+		for p := 0; p < parts; p++ {
+			ops = append(ops, msOp{K: "co", Group: "g1", Topic: t, Part: int32(p), N: int64(p), Meta: ""})
+			if p%3 == 0 {
+				ops = append(ops, msOp{K: "uo", Topic: t, Part: int32(p), N: int64(p)})
+			}
+		}
+		ops = append(ops, msOp{K: "no", Topic: t, Part: int32(parts - 1)}, msOp{K: "fc", Topic: t})
+		tail([]string{"g1"}, parts)
+	case 2: // 150+ groups with metadata records, each with one commit
+		ng := r.Range(150, 200)
+		var groups []string
+		ops = append(ops, msOp{K: "ct", Topic: t, N: 1, RF: 1}, msOp{K: "ct", Topic: other, N: 1, RF: 1}, msOp{K: "co", Group: "g-000", Topic: other, N: 77, Meta: "keep"})
+		for i := 0; i < ng; i++ {
+			g := fmt.Sprintf("g-%03d", i)
+			groups = append(groups, g)
+			ops = append(ops, msOp{K: "pg", G: &msGroup{ID: g, State: "stable", Gen: int32(i), Members: []msMember{{ID: "m0", Client: "c", Host: "/h", HB: "hb", Subs: []string{t}, Assign: []msAssign{}}}}},
+				msOp{K: "co", Group: g, Topic: t, N: int64(i), Meta: "m"})
+		}
+		for i := 0; i < ng; i += 7 {
+			ops = append(ops, msOp{K: "dg", Group: groups[i]})
+		}
+		tail(groups[1:], 1)
+	default: // names near their limits: 249-byte topic names, 254-byte group ids
+		t = strings.Repeat("t", 247) + "-1"
+		other = strings.Repeat("t", 247) + "-2"
+		var groups []string
+		for i := 0; i < r.Range(30, 45); i++ {
+			groups = append(groups, strings.Repeat("g", 250)+fmt.Sprintf("%04d", i))
+		}
+		ops = append(ops, msOp{K: "ct", Topic: t, N: 2, RF: 1}, msOp{K: "ct", Topic: other, N: 1, RF: 1}, msOp{K: "ct", Topic: strings.Repeat("t", 250), N: 1, RF: 1},
+			msOp{K: "co", Group: groups[0], Topic: other, N: 77, Meta: "keep"}, msOp{K: "uo", Topic: other, N: 6})
+		for _, g := range groups {
+			ops = append(ops, msOp{K: "co", Group: g, Topic: t, Part: 1, N: 3, Meta: strings.Repeat("x", 200)})
+		}
+		tail(groups, 2)
+	}
+	return 1, ops
+}
+
+// a two-topic scenario at scale: X carries 150-300 committed offsets (groups x partitions),
+// Y (prefix-related) a few; X is deleted, Y read back; X re-created
+func msGenScaleScenario(r *vRand) msScenario {
+	sc := msScenario{Brokers: 1, X: "orders", Y: "orders-v2", MaxPart: 1}
+	if r.Bool() {
+		sc.X, sc.Y = "orders.v2", "orders"
+	}
+	parts := r.Range(2, 6)
+	ng := (r.Range(150, 300) + parts - 1) / parts
+	sc.Groups = []string{"grp-000", fmt.Sprintf("grp-%03d", ng-1)}
+	sc.Setup = []msOp{{K: "ct", Topic: sc.X, N: int64(parts), RF: 1}}
+	for g := 0; g < ng; g++ { // everything of X first, then everything of Y (the key space is read between the two)
+		for p := 0; p < parts; p++ {
+			sc.Setup = append(sc.Setup, msOp{K: "co", Group: fmt.Sprintf("grp-%03d", g), Topic: sc.X, Part: int32(p), N: int64(g + p), Meta: "m"})
+		}
+	}
+	sc.Setup = append(sc.Setup, msOp{K: "ct", Topic: sc.Y, N: 2, RF: 1}, msOp{K: "uo", Topic: sc.Y, Part: 1, N: 8},
+		msOp{K: "uc", C: &msCfg{Name: sc.Y, RF: 1, RetMs: 9, RetBytes: -1, Config: [][2]string{}}})
+	for g := 0; g < ng; g += 40 {
+		sc.Setup = append(sc.Setup, msOp{K: "co", Group: fmt.Sprintf("grp-%03d", g), Topic: sc.Y, Part: int32(g % 2), N: int64(g + 1), Meta: "y"})
+	}
+	sc.Muts = []msOp{{K: "dt", Topic: sc.X}, {K: "ct", Topic: sc.X, N: 1, RF: 1}}
+	return sc
 }
